@@ -91,4 +91,19 @@ META = {
         "stub": STUB_WS + ["remote endpoint: scripted octet-level peer"],
         "design_ref": "DESIGN.md section 4, C16",
     },
+    "C07": {
+        "title": "The opening handshake admits exactly the valid peers and never crashes",
+        "budgets": {"quick": (200000, 60), "thorough": (5000000, 1200)},
+        "variants": ALL_VARIANTS,
+        "rule": ("three modes: pair (real client <-> real server over spec versions 10-18 x server versions, subprotocol "
+                 "lists and selection policies, str/list headers, origin vs allow-list, user-agent/server strings, "
+                 "compression offers, 6 URL shapes), server (scripted client: valid baseline request + exactly one of 33 "
+                 "mutations of known verdict, or arbitrary octets; server options: versions, origin allow-list, null "
+                 "origin, connection limit, external port, status page) and client (scripted server: 24 response "
+                 "mutations); all under a seeded segmentation; non-trivial = at least one delivery split the buffered "
+                 "stream; distinct = hash of the (action kind, mutation, state) sequence"),
+        "real": REAL_WS,
+        "stub": STUB_WS + ["remote endpoint in server/client modes: scripted HTTP peer with by-construction verdicts"],
+        "design_ref": "DESIGN.md section 4, C07",
+    },
 }
